@@ -26,6 +26,7 @@ CONSUMERS = [("savefile.cpp", None), ("default-value.cpp", None), ("ports-runtim
 def run(ctx):
     ctx.rule("R12.1", "KEYS: every metadata key (or literal key prefix) looked up on the savefile path is emitted by a macro of port-sugar.h")
     ctx.rule("R12.2", "VA-CONSUME: every call of rtosc_v2args passes nreserved(<same string>) as count, or a count of 1 under has_reserved(*<same string>)")
+    ctx.rule("R12.4", "PAIRING: a length/index written into an argument array derives from the position of the iterator that walks that same array (runtime values vs. defaults: the two lists have different slot layouts once one is range-compressed)")
     ctx.rule("R12.3", "CAPTURE-FORMAT: every literal-format reply/broadcast in the macro-generated callbacks passes the C types rtosc_v2args / rtosc_v2argvals will read")
     meta_u = ctx.ast("meta_matrix.cpp")
     sugar_u = ctx.ast("sugar_matrix.cpp")
@@ -103,6 +104,33 @@ def run(ctx):
                        key="R12.2:%s" % q,
                        what="%s calls rtosc_v2args(…, %s, %s, …): the count is not the number of value-carrying tags of that string" % (q, A.src(cnt), A.src(s)))
     ctx.require(n >= 2, "R12.2: only %d calls of rtosc_v2args found" % n)
+
+    # ---- R12.4
+    us = ctx.ast("savefile.cpp")
+    fn = us.function("first_equal_index")
+    itr_array = {}
+    for c in A.calls_in(us.body(fn), "rtosc_arg_val_itr_init"):
+        a = A.kids(c)[1:]
+        it = A.strip_casts(a[0])
+        if it.get("kind") == "UnaryOperator" and it.get("opcode") == "&":
+            itr_array[A.ref_id(A.kids(it)[0])] = A.ref_id(a[1])
+    ctx.require(len(itr_array) == 2, "first_equal_index: iterator initialisations not found")
+    sets = list(A.calls_in(us.body(fn), "rtosc_arg_arr_len_set"))
+    ctx.require(len(sets) == 1, "first_equal_index: expected one rtosc_arg_arr_len_set")
+    a = A.kids(sets[0])[1:]
+    arr_ids = {y["referencedDecl"]["id"] for y in A.walk(a[0]) if y.get("kind") == "DeclRefExpr" and y["referencedDecl"]["kind"] == "ParmVarDecl"}
+    vid = A.ref_id(a[1])
+    sources = set()
+    for y in A.walk(us.body(fn)):
+        if y.get("kind") == "BinaryOperator" and y.get("opcode") == "=" and A.ref_id(A.kids(y)[0]) == vid:
+            for z in A.walk(A.kids(y)[1]):
+                if z.get("kind") == "MemberExpr" and z.get("name") == "i":
+                    sources.add(A.ref_id(A.kids(z)[0]))
+    src_arrays = {itr_array.get(s_) for s_ in sources}
+    names = {i_: us.by_id[i_].get("name") for i_ in list(arr_ids) + [x for x in src_arrays if x]}
+    ctx.ob("R12.4", "first_equal_index: trimmed length", bool(sources) and src_arrays == arr_ids, site=A.where(sets[0]),
+           detail={"array_written": sorted(names.get(i_) for i_ in arr_ids), "length_derived_from_iterator_over": sorted(str(names.get(i_)) for i_ in src_arrays)},
+           what="first_equal_index trims array `%s` to a length taken from the iterator over `%s`" % (sorted(names.get(i_) for i_ in arr_ids), sorted(str(names.get(i_)) for i_ in src_arrays)))
 
     # ---- R12.3
     vtab = OF.va_table(ur)
